@@ -134,6 +134,12 @@ Theorem C02_args_order_preserved : forall blk id args,
 Proof. exact args_order_preserved. Qed.
 Print Assumptions C02_args_order_preserved.
 
+(* the same for `defer f(args)` and `go f(args)` *)
+Theorem C02_delegated_args_order_preserved : forall args,
+  Forall seq_ok args -> trace_delegated args = go_delegated args.
+Proof. exact delegated_order_preserved. Qed.
+Print Assumptions C02_delegated_args_order_preserved.
+
 (* Recorded finding assign-rhs-blocking-call-evaluated-before-lhs-operand-call: `a[yv#1()] = yv#2()` runs 2 first,
    although both sides are in the order-preserving class. *)
 Theorem C02_index_assign_order_refuted : exists idx rhs,
